@@ -26,19 +26,19 @@ CONF = {
     "C01": dict(prefixes=("C01.",), builds=("pure", "cy"),
                 model=[("plain", 150, 1500), ("dag", 120, 1500), ("kinds3", 80, 1200), ("sync", 120, 1500),
                        ("ctx", 60, 600), ("faults", 100, 1200), ("everything", 120, 2000), ("lazyfail", 60, 600), ("ival", 80, 1000),
-                       ("again", 150, 1500), ("nonasync", 80, 800), ("batchleaf", 100, 1000)],
+                       ("again", 150, 1500), ("nonasync", 80, 800), ("batchleaf", 100, 1000), ("basefaults", 100, 1000)],
                 monitor_only=[("cleanup", 250, 2500)],
                 big=[("big", 25, 400), ("everything", 100, 2000)], enum=True),
     "C02": dict(prefixes=("C02.",), builds=("pure",),
                 model=[("faults", 500, 5000), ("lazyfail", 250, 2500), ("syncfaults", 250, 3000), ("ctxfaults", 200, 2000), ("basefaults", 300, 3000),
-                       ("everything", 200, 3000), ("cancel", 250, 2500)],
+                       ("everything", 200, 3000), ("cancel", 250, 2500), ("flushfaults", 150, 1500)],
                 big=[("faults", 400, 5000)]),
     "C03": dict(prefixes=("C03.",), builds=("pure",),
                 model=[("plain", 300, 3000), ("dag", 400, 4000), ("spawn", 200, 2000), ("sync", 250, 2500), ("ival", 200, 2000), ("spawnsync", 200, 2000), ("again", 250, 2500),
-                       ("faults", 150, 2000), ("everything", 150, 2000)],
+                       ("faults", 150, 2000), ("everything", 150, 2000), ("basefaults", 150, 1500)],
                 big=[("big", 60, 800), ("dag", 300, 3000)], deep=True, liveness=True),
     "C04": dict(prefixes=("C04.",), builds=("pure",),
-                model=[("plain", 400, 4000), ("dag", 300, 3000), ("kinds3", 300, 3000), ("faults", 200, 2500), ("ctx", 150, 1500), ("again", 200, 2000)],
+                model=[("plain", 400, 4000), ("dag", 300, 3000), ("kinds3", 300, 3000), ("faults", 200, 2500), ("ctx", 150, 1500), ("again", 200, 2000), ("flushfaults", 200, 2000)],
                 monitor_only=[("helpers", 500, 5000)],
                 big=[("big", 80, 1000), ("kinds3", 300, 3000)], enum=True),
     "C05": dict(prefixes=("C05.",), builds=("pure",),
